@@ -38,8 +38,13 @@ RStamp(c, x) ==
     [] c = "ex"  -> IF x = ABSENT THEN 0 ELSE 1
     [] c = "par" -> IF x = ABSENT THEN ABSENT ELSE x % 2
     [] c = "any" -> 0
+    [] c = "near" -> x
     [] OTHER -> -99
-RInc(c, cur, s) == RStamp(c, cur) # s           \* inconsistent?
+Abs(n) == IF n < 0 THEN -n ELSE n
+\* inconsistent?  ("near" tolerates a distance of one: a coarse checker that is not an equivalence)
+RInc(c, cur, s) == IF c = "near" THEN Abs(cur - s) > 1 ELSE RStamp(c, cur) # s
+\* what a task observes of a resource read with checker c (with "near" it observes nothing)
+RObs(c, x) == IF c = "near" THEN 0 ELSE RStamp(c, x)
 
 \* output checkers: outputs encode Ok(k) as 2k and Err(k) as 2k+1
 OStamp(c, o) ==
@@ -48,8 +53,10 @@ OStamp(c, o) ==
     [] c = "erreq" -> IF o % 2 = 1 THEN o \div 2 ELSE -1
     [] c = "res"   -> o % 2
     [] c = "any"   -> 0
+    [] c = "near"  -> o
     [] OTHER -> -99
-OInc(c, o, s) == OStamp(c, o) # s
+OInc(c, o, s) == IF c = "near" THEN Abs(o - s) > 1 ELSE OStamp(c, o) # s
+OObs(c, o) == IF c = "near" THEN 0 ELSE OStamp(c, o)
 
 IsTaskDep(d) == d.k \in {"rq", "rsv"}
 IsResDep(d)  == d.k \in {"rd", "wr"}
@@ -212,7 +219,7 @@ SExec(P, S, t, pc, acc) ==
     [] op.k = "rd" ->
          LET w == S.wtr[op.x] IN
          IF w # 0 /\ ~SReach(S, t, w) THEN [S EXCEPT !.status = "hidden"]
-         ELSE SExec(P, [S EXCEPT !.rdr[op.x] = @ \cup {t}], t, pc + 1, Mix(acc, RStamp(op.c, S.res[op.x]), P.na))
+         ELSE SExec(P, [S EXCEPT !.rdr[op.x] = @ \cup {t}], t, pc + 1, Mix(acc, RObs(op.c, S.res[op.x]), P.na))
     [] op.k \in {"wr", "wt"} ->
          IF S.wtr[op.x] # 0 THEN [S EXCEPT !.status = "overlap"]
          ELSE IF \E q \in S.rdr[op.x] : ~SReach(S, q, t) THEN [S EXCEPT !.status = "hidden"]
@@ -220,7 +227,7 @@ SExec(P, S, t, pc, acc) ==
     [] op.k = "rq" ->
          LET S1 == SReq(P, [S EXCEPT !.req[t] = @ \cup {op.x}], op.x) IN
          IF S1.status # "ok" THEN S1
-         ELSE SExec(P, S1, t, pc + 1, Mix(acc, OStamp(op.c, S1.out[op.x]), P.na))
+         ELSE SExec(P, S1, t, pc + 1, Mix(acc, OObs(op.c, S1.out[op.x]), P.na))
     [] OTHER -> [S EXCEPT !.status = "offtable"]
 
 RECURSIVE SRoots(_, _, _)
